@@ -4,9 +4,13 @@
    (2) hand-off protocol, decode side: blocks are pulled from the shared stream one task at a time
        in id order for every interleaving; once a task failed no later task touches the stream and
        the in-order result scan reports the smallest failed block;
-   (3) after a block decoding error every later Read returns the error and no data. *)
+   (3) after a block decoding error every later Read returns the error and no data;
+   (4) a block whose decoding fails (any position, any job count, any Read lengths): the Reads are
+       served, completely and in order, from whole blocks that precede the failed one ([spec_reads_g]:
+       the first Read that wants more gets what is left together with the error, every later Read
+       gets the error and no byte); nothing from beyond the failed block is ever handed out. *)
 From Coq Require Import List NArith ZArith.
-From KV Require Import Model.Writer Model.Reader Proofs.ReaderProofs Model.Handoff Proofs.HandoffProofs.
+From KV Require Import Model.Writer Model.Reader Proofs.ReaderProofs Proofs.ReaderGen Model.Handoff Proofs.HandoffProofs.
 Import ListNotations.
 
 Theorem C05_output_independent_of_jobs : forall B jobs1 hint1 jobs2 hint2 data ns,
@@ -34,3 +38,21 @@ Theorem C05_error_is_sticky : forall B jobs hint from to s n, r_closed s = false
   r_read B jobs hint from to s n = (s, [], RErr).
 Proof. exact read_after_error. Qed.
 Print Assumptions C05_error_is_sticky.
+
+Theorem C05_failed_block_reported_nothing_beyond_it : forall B jobs hint data bad_frames rest ns, (0 < B)%N -> (0 < jobs)%N ->
+  dmg bad_frames (chunks B data) -> ~ clean B 0 0 0 bad_frames ->
+  exists pre q k, bad_frames = pre ++ FFail :: q /\ clean B 0 0 0 pre /\ (k <= length pre)%nat /\
+    fst (do_reads_g B jobs hint 0 0 (init_r (bad_frames ++ FEnd :: rest)) ns) =
+      spec_reads_g (firstn (k * N.to_nat B) data) true ns.
+Proof.
+  intros B jobs hint data dfr rest ns HB HJ Hd Hn.
+  destruct (reader_damaged B jobs hint 0 0 HB HJ data dfr rest ns Hd Hn) as (pre & q & k & E & Hc & _ & Hk & Hr).
+  exists pre, q, k. split; [exact E|]. split; [exact Hc|]. split; [exact Hk|]. rewrite Hr. f_equal.
+  unfold range_bytes, range_bytes_at. cbn [N.eqb N.to_nat Nat.sub Nat.mul skipn]. rewrite Nat.sub_0_r. apply firstn_all.
+Qed.
+Print Assumptions C05_failed_block_reported_nothing_beyond_it.
+
+Example C05_failed_block_instance :
+  (fst (do_reads_g 4 3 0 0 0 (init_r ([FData [1;2;3;4]; FData [5;6;7;8]; FData [9;10;11;12]; FFail; FData [17]] ++ [FEnd])) [5; 8; 1]) =
+  [([1;2;3;4;5], RNil); ([6;7;8;9;10;11;12], RErr); ([], RErr)])%N.
+Proof. vm_compute. reflexivity. Qed.
